@@ -46,6 +46,8 @@ RULE = ('cipher: every (position, byte) cell and every string of the stated sets
         'formats x devices; a case class is (program group, format, device, outcome); everything except '
         '(grammar program, B, disk) is non-trivial')
 ASSUMPTIONS = [
+    'files written by two SAVEs are compared up to trailing end-of-file markers 1A (a tokenised LOAD keeps the marker it '
+    'read behind the end of the program, which the source documents as "keep, but ignore, anything after")',
     'internal seam: converter.protect / unprotect (anchored), Program.bytecode / code_size / line_numbers '
     '(read-only, to compare program memory byte for byte)',
     '"program memory" is the bytes up to Program.code_size (what PEEK attributes to the program); bytes '
@@ -435,6 +437,26 @@ def roundtrip_program(part, bench, group, name, kind, payload, formats=FORMATS, 
                 if step(s, b'NEW', case, 'NEW', fmt, dev) and \
                         step(s, b'MERGE "%s"' % (merge,), case, 'MERGE', fmt, dev, tol):
                     compare(s, fmt, dev, 'MERGE', case)
+            if ok and dev == 'disk':
+                # LOAD replaces whatever is in memory: a longer program entered before it leaves no trace,
+                # in memory or in the file written next
+                first = open(bench.disk_path('RT%s.BAS' % fmt.decode()), 'rb').read()
+                okp = step(s, b'NEW', case, 'NEW', fmt, dev)
+                for k in range(40):
+                    okp = okp and step(s, b'%d REM %s' % (60000 + k, b'padding ' * 6), case, 'line entry', fmt, dev)
+                if okp and step(s, b'LOAD "%s"' % (fname,), case, 'LOAD', fmt, dev, tol):
+                    part.n += 1
+                    if compare(s, fmt, dev, 'LOAD-over-longer-program', dict(case, over='longer')):
+                        f2 = b'C:RU' + fmt + b'.BAS'
+                        if step(s, b'SAVE "%s"%s' % (f2, suffix), case, 'SAVE', fmt, dev):
+                            second = open(bench.disk_path('RU%s.BAS' % fmt.decode()), 'rb').read()
+                            # the end-of-file marker 1A is not program content (a tokenised LOAD keeps the
+                            # marker it read after the program's end, so SAVE then writes two)
+                            if second.rstrip(b'\x1a') != first.rstrip(b'\x1a') and (fmt != b'A' or reenter):
+                                part.violation('roundtrip/%s/%s/resaved-file-differs/%s' % (fmt.decode(), dev, label),
+                                               '%s: SAVE, enter a longer program, LOAD, SAVE again: %d bytes, first file %d bytes' % (
+                                                   name, len(second), len(first)), dict(case, over='longer'))
+                    part.classes.add('%s|%s|%s|over-longer' % (group, fmt.decode(), dev))
     if 'cassette' in devices:
         s = restore(s)
         saved = []
